@@ -207,8 +207,11 @@ inline void checkTable(const bpp::DataTable& dt, const std::string& after)
   for (size_t j = 0; j < nc; ++j)
     if (dt.getColumn(j).size() != nr) throw InvariantBroken("table-column-length: column " + std::to_string(j) + " has " + std::to_string(dt.getColumn(j).size()) + " cells for " + std::to_string(nr) + " rows after " + after);
   auto tryIt = [](const std::function<void()>& f) { try { f(); } catch (bpp::Exception&) {} };
-  for (auto& n : rn) { tryIt([&] { use(dt.hasRow(n)); use(dt.getRow(n)); }); if (nc) tryIt([&] { use(dt(n, nc - 1)); }); if (!cn.empty()) tryIt([&] { use(dt(n, cn[0])); }); }
-  for (auto& n : cn) { tryIt([&] { use(dt.hasColumn(n)); use(dt.getColumn(n)); }); if (nr) tryIt([&] { use(dt(nr - 1, n)); }); }
+  // by-name reads for the first and last three names only: every name would make the check quadratic in the table size
+  // (17 checks per input; the libFuzzer table target fell from 1500 to 57 executions/s)
+  auto ends = [](const std::vector<std::string>& v) { std::vector<std::string> o; for (size_t i = 0; i < v.size(); ++i) if (i < 3 || i + 3 >= v.size()) o.push_back(v[i]); return o; };
+  for (auto& n : ends(rn)) { tryIt([&] { use(dt.hasRow(n)); use(dt.getRow(n)); }); if (nc) tryIt([&] { use(dt(n, nc - 1)); }); if (!cn.empty()) tryIt([&] { use(dt(n, cn[0])); }); }
+  for (auto& n : ends(cn)) { tryIt([&] { use(dt.hasColumn(n)); use(dt.getColumn(n)); }); if (nr) tryIt([&] { use(dt(nr - 1, n)); }); }
 }
 
 // ------------------------------------------------------------------ 1. character and string utilities
